@@ -365,7 +365,10 @@ impl ASN1Type {
                 // TODO: link components of Class field, such as COMPONENTS OF BILATERAL.&id
                 for comp_link in &s.components_of {
                     if let Some(ToplevelDefinition::Type(linked)) = tlds.get(comp_link) {
-                        if let ASN1Type::Sequence(linked_seq) = &linked.ty {
+                        // (a SET includes the components of a SET type)
+                        if let ASN1Type::Sequence(linked_seq) | ASN1Type::Set(linked_seq) =
+                            &linked.ty
+                        {
                             linked_seq
                                 .members
                                 .iter()
